@@ -16,6 +16,8 @@ pub enum Extra {
     Dir(String),
     /// (name, target)
     Symlink(String, String),
+    /// a named pipe: reading it blocks for ever (nobody writes)
+    Fifo(String),
 }
 
 #[derive(Clone, Debug, Default, PartialEq, Eq)]
@@ -54,6 +56,11 @@ impl Image {
                 }
                 Extra::Symlink(n, target) => {
                     let _ = std::os::unix::fs::symlink(target, dir.join(n));
+                }
+                Extra::Fifo(n) => {
+                    if let Ok(c) = std::ffi::CString::new(dir.join(n).to_string_lossy().as_bytes()) {
+                        unsafe { libc::mkfifo(c.as_ptr(), 0o644) };
+                    }
                 }
             }
         }
